@@ -422,7 +422,14 @@ int main(int argc, char** argv)
         c.outcome("graph: identical");
         c.nontrivial(verif::Hash().str("graph").str(d).get());
       };
-      if(c.want()) { Graph g; graph_case(g, "default-constructed"); }
+      if(c.want())
+      {
+        // serialising / deserialising the empty graph used to crash: run it in a child to get a stable key
+        c.desc([&]{ return std::string("graph default-constructed"); });
+        int sig = c.run_forked([&]{ Graph g; std::vector<char> b = g.serialize(); Graph h(b); std::vector<char> b2 = h.serialize(); if(b2 != b) _exit(9); });
+        c.check(sig == 0, "graph default-constructed :: " + std::string(sig == 1009 ? "roundtrip" : "crash"), [&]{ return "Graph g; Graph h(g.serialize()); died / differed (" + itos(sig) + ")"; });
+        if(sig == 0) { Graph g; graph_case(g, "default-constructed"); }
+      }
       for(Index n = 0; n <= 3; ++n) for(Index m = 0; m <= 3; ++m)
       {
         const Index bits = n * m;
